@@ -65,7 +65,11 @@ def run_case(case):
             f = multi.vector_fun(rec, x0)
             xr = np.array(x0)
             xr.flags.writeable = False              # the caller's x is never written to
-            J = nd.Jacobian(f, method=method, order=order)
+            gen = None
+            if ri % 3 == 1:                         # a user generator with a ratio other than the default 2
+                from numdifftools.step_generators import MaxStepGenerator
+                gen = MaxStepGenerator(base_step=2.0 ** -5, step_ratio=[1.6, 3.0, 4.0][ri % 9 // 3], num_steps=10)      # steps 0.03 .. 1e-7: inside every test function's domain
+            J = nd.Jacobian(f, method=method, order=order, step=gen)
             val = J(xr)
             keep = np.array(val, copy=True)
             J(np.array(x0) * 1.5 + 0.25)            # a later call of the same object elsewhere
@@ -87,6 +91,9 @@ def run_case(case):
                 val, info = nd.Gradient(lambda z: F(np.ravel(z)) if not hasattr(z, 'z1') else F(z), method=method, order=order, full_output=True)(xx)
             else:
                 val, info = nd.Gradient(F, method=method, order=order, full_output=True)(np.array(x0) if n > 1 else x0[0])
+                plain = nd.Gradient(F, method=method, order=order)(np.array(x0) if n > 1 else x0[0])
+                if np.shape(plain) != np.shape(val) or not np.array_equal(np.asarray(plain), np.asarray(val), equal_nan=True):
+                    return ('raise', 'FullOutputMismatch: without full_output the gradient has shape %s, with it %s' % (np.shape(plain), np.shape(val)))
             return ('ok', np.asarray(val).tolist(), list(np.shape(val)), np.asarray(info.error_estimate).tolist())
         if mode == 'dirdiff':
             F = multi.comp_fun(rec['comps'][0], x0)
